@@ -54,7 +54,7 @@ Definition word_facts (x : Z) : bool :=
   byteb (sfx_tl_wv_byte w v) &&
   zlist_eqb (to_hex [p; sfx_tl_wv_byte w v] ++ skipn 1 (to_hex [e])) (spec_note_text lsb msb) &&
   zlist_eqb (spec_note_text lsb msb) (hexbyte p ++ [hexd w; hexd v; hexd e]).
-Lemma word_facts_all : forallb word_facts (upto 65536) = true.
+Lemma word_facts_all : forallb word_facts (upto_fast 65536) = true.
 Proof. vm_compute. reflexivity. Qed.
 
 Lemma note_word_spec lsb msb : byte lsb -> byte msb ->
@@ -69,7 +69,7 @@ Lemma note_word_spec lsb msb : byte lsb -> byte msb ->
 Proof.
   intros Hl Hm. unfold byte in *.
   assert (Hx : 0 <= lsb + 256 * msb < 65536) by lia.
-  pose proof (sweep_upto _ _ word_facts_all _ Hx) as H. unfold word_facts in H.
+  pose proof (sweep_upto_fast _ _ word_facts_all _ Hx) as H. unfold word_facts in H.
   replace ((lsb + 256 * msb) mod 256) with lsb in H by lia.
   replace ((lsb + 256 * msb) / 256) with msb in H by lia.
   cbv zeta in H |- *.
@@ -78,5 +78,5 @@ Proof.
          | Hz : zlist_eqb _ _ = true |- _ => apply zlist_eqb_eq in Hz
          | Hb : byteb _ = true |- _ => apply byteb_spec in Hb
          end.
-  repeat split; try assumption; lia.
+  repeat split; try assumption; unfold byte in *; lia.
 Qed.
